@@ -82,7 +82,7 @@ theorem scavenge_order (s : SWorld) (f : Nat) (hg : s.gone = false) (hr : s.w.jo
       simp only [scavDeleteJob]
       split
       · simp [hg]
-      · split <;> simp [hg]
+      · split <;> simp
 
 /-- before the timeout the scavenger does nothing -/
 theorem scavenge_early (b : Bool) (s : SWorld) (f : Nat) (h : s.w.env.now < scavTimeout s.w.job.spec.ttl) :
